@@ -90,7 +90,7 @@ Proof. exact load_schema_deprecated_roundtrip. Qed.
 Theorem C20_refuted_without_include_deprecated : forall Qy D tn,
   (forall f t fs, iq_fields_deprecated Qy = false -> is_dep (dep_fields D) tn f = true -> ~ In (f, t) (listed_fields Qy D tn fs)) /\
   (forall v vs, iq_values_deprecated Qy = false -> is_dep (dep_values D) tn v = true -> ~ In v (listed_values Qy D tn vs)).
-Proof. intros Qy D tn. split; [intros f t fs; apply deprecated_field_not_listed | intros v vs; apply deprecated_value_not_listed]. Qed.
+Proof. exact without_include_deprecated. Qed.
 
 (** ... and not at all beyond (known finding type-ref-deeper-than-introspection-query): the
     command-line generator then reports an error for every document *)
